@@ -116,8 +116,13 @@ def model_state(p):
         k = insts.get(id(d))
         if k is not None or not data_inputs or data_inputs[-1] is not None:
             data_inputs.append(k)  # runs of other inputs are one opaque item
+    # identity of the data-block importance trees: particle -> first-occurrence index of id(tree), dict order
+    ids = {}
+    real_tree = []
+    for part, tree in getattr(p.cells._importance, "_real_tree", {}).items():
+        real_tree.append([pshort(part), ids.setdefault(id(tree), len(ids))])
     return {"mode": snap["mode"], "cells": cells, "flags": snap["flags"], "vol_calc": bool(p.cells._volume._calc_by_mcnp),
-            "data_inputs": data_inputs}
+            "data_inputs": data_inputs, "real_tree": real_tree}
 
 
 # --------------------------------------------------------------------------- operations
@@ -230,6 +235,8 @@ def run_impl(case, want_state=True):
                             p.write_to_file(out, overwrite=True)
                         with open(out, encoding="utf-8", newline="") as fh:
                             st["text"] = fh.read()
+                        if want_state:
+                            st["state_after"] = model_state(p)
                     except _Hang:
                         raise
                     except Exception as e:  # noqa: BLE001
